@@ -21,20 +21,24 @@ fn pointer(v: &[u8], base: usize, at: usize) -> usize {
     p - base
 }
 
-// [b] then [b] again: a pointer to the first one iff that was written below the 14-bit limit, otherwise written out again
+// [a] then [b], both label octets symbolic: a pointer to the first name iff the two labels are the SAME octets and the first
+// was written below the 14-bit limit; any other label (including one differing only in letter case) is written out in full,
+// so the decoder gets back exactly the original spelling
 #[kani::proof]
 #[kani::unwind(6)]
 fn compress_same_name() {
     let base: usize = kani::any();
     kani::assume(base <= 65535);
+    let a: u8 = kani::any();
     let b: u8 = kani::any();
-    let d1 = Domain(vec![lbl(b)]);
+    let d1 = Domain(vec![lbl(a)]);
+    let d2 = Domain(vec![lbl(b)]);
     let mut offsets = DomainOffsets::new();
     let mut v: Vec<u8> = Vec::new();
     push_compressed_domain(&mut v, &d1, &mut offsets, base);
-    assert!(v.len() == 3 && v[0] == 1 && v[1] == b && v[2] == 0);
-    push_compressed_domain(&mut v, &d1, &mut offsets, base);
-    if base < 0x4000 {
+    assert!(v.len() == 3 && v[0] == 1 && v[1] == a && v[2] == 0);
+    push_compressed_domain(&mut v, &d2, &mut offsets, base);
+    if a == b && base < 0x4000 {
         assert!(v.len() == 5);
         assert!(pointer(&v, base, 3) == 0);
     } else {
@@ -43,6 +47,7 @@ fn compress_same_name() {
     std::mem::forget(v);
     std::mem::forget(offsets);
     std::mem::forget(d1);
+    std::mem::forget(d2);
 }
 
 // [a, b] then [b]: the second is a pointer to the label b inside the first name (offset base + 2)
